@@ -171,7 +171,20 @@ func initBig() {
 		}
 		return Tuple{setRecv(a, IntConst(z)), tTrue}
 	}
-	intrinsics["(*math/big.Int).String"] = func(in *Interp, fn *ssa.Function, a []Value) Value { return concreteStr("<big>") }
+	intrinsics["(*math/big.Int).String"] = func(in *Interp, fn *ssa.Function, a []Value) Value {
+		p := a[0].(*Value)
+		if p == nil {
+			return concreteStr("<nil>")
+		}
+		x := bigOf(a[0])
+		if x.IsConst() {
+			return concreteStr(x.Val.String())
+		}
+		if !in.fmtExact {
+			return concreteStr("<big>")
+		}
+		return in.formatInt(x, 10, 0, false)
+	}
 	intrinsics["(*math/big.Int).Bytes"] = func(in *Interp, fn *ssa.Function, a []Value) Value {
 		x := bigOf(a[0])
 		if x.IsConst() {
